@@ -658,7 +658,7 @@ SUPPORT_INLINE constexpr T msb_mask(const N& n) noexcept {
 //! Returns a bit-mask that has `x` bit set.
 template<typename T, typename Index>
 [[nodiscard]]
-SUPPORT_INLINE constexpr T bit_mask(const Index& idx) noexcept { return (1u << as_basic_uint(idx)); }
+SUPPORT_INLINE constexpr T bit_mask(const Index& idx) noexcept { return T(std_uint_t<sizeof(T)>(1) << as_basic_uint(idx)); }
 
 //! Returns a bit-mask that has `x` bit set (multiple arguments).
 template<typename T, typename Index, typename... Args>
